@@ -609,7 +609,15 @@ func genC27(seed uint64) *Plan {
 			var raw []byte
 			label := ""
 			base := append([]byte(nil), valid[r.Intn(len(valid))]...)
-			switch r.Intn(12) {
+			switch r.Intn(14) {
+			case 12, 13:
+				// route monitoring that wraps a BGP message other than an UPDATE, for a peer that is up
+				if r.Chance(0.8) {
+					pl.Steps = append(pl.Steps, Step{Kind: "bmp_raw", Hex: hexEncode(p.peerUp()), Label: "valid"})
+				}
+				inner := pick(r, [][]byte{EncodeNotification(6, 2, nil), EncodeKeepalive(), EncodeOpen(OpenSpec{Version: 4, AS: p.AS, HoldTime: 90, ID: p.ID, ASN4: true})})
+				raw = p.routeMonitoring(inner, r.Chance(0.3))
+				label = fmt.Sprintf("route_monitoring_wraps_bgp_type_%d", inner[18])
 			case 0:
 				raw, label = base, "valid"
 			case 1:
